@@ -2,8 +2,8 @@
 (* C29: removing signatures removes them all and nothing else.                        *)
 (*                                                                                    *)
 (* A document has np pages, a sequence of top-level AcroForm entries, optional        *)
-(* /Perms entries (certification /DocMDP, usage rights /UR3) and optionally a link    *)
-(* annotation on page 1.  Entry shapes:                                               *)
+(* /Perms entries (certification /DocMDP, usage rights /UR3) and other annotations (see Others).  *)
+(* Entry shapes:                                                                      *)
 (*   sigM   signature field merged with its widget on page p                          *)
 (*   sigK   signature field with one separate widget kid on page p                    *)
 (*   sigK2  signature field with two widget kids, on pages p and q                    *)
@@ -23,7 +23,8 @@ EXTENDS Integers, Sequences, FiniteSets, TLC, Json
 CONSTANTS NPs,        \* page counts
           MaxFields,  \* number of top-level entries
           Later,      \* shapes allowed for entries after the first (all shapes for the first)
-          IndDims     \* which of "perms", "acro", "fields", "kids" vary between direct and indirect objects
+          IndDims,    \* which of "perms", "acro", "fields", "kids" vary between direct and indirect objects
+          OthCfgs     \* configurations of OTHER annotations: subset of {"none", "ind1", "dir1", "dirL", "mix"}
 
 (* Every dictionary / array on the removal path may be stored inline or as an indirect object:       *)
 (* ind is the set of those stored indirectly: catalog /Perms, catalog /AcroForm, the /Fields array,   *)
@@ -41,8 +42,20 @@ Entries(np) ==
     \cup {Ent(sh, p, 0, TRUE, TRUE, FALSE) : sh \in {"grp3", "grpFT"}, p \in 1..np}
     \cup {Ent("tx", p, 0, FALSE, TRUE, FALSE) : p \in 1..np}
 
-VARIABLES np, fields, perms, link, ind, sf
-vars == <<np, fields, perms, link, ind, sf>>
+(* Other annotations (not widgets of signature fields) that share the pages with the signature widgets.   *)
+(* An entry of a page's /Annots array may be an indirect reference or a DIRECT dictionary; both forms must  *)
+(* survive the removal untouched, on the signature's page as well as on other pages.  An annotation is      *)
+(* [pg, name]; the name is subtype:id, ids starting with i are stored as indirect objects, with d inline.  *)
+OA(pg, name) == [pg |-> pg, name |-> name]
+Others(cfg, n) ==
+    CASE cfg = "none" -> {}
+      [] cfg = "ind1" -> {OA(1, "link:i1")}
+      [] cfg = "dir1" -> {OA(1, "link:d1")}
+      [] cfg = "dirL" -> {OA(n, "text:dL")}
+      [] cfg = "mix"  -> {OA(1, "link:i1"), OA(1, "text:d1"), OA(n, "link:dL")}
+
+VARIABLES np, fields, perms, oth, ind, sf
+vars == <<np, fields, perms, oth, ind, sf>>
 
 IsSig(e)  == e.sh # "tx"
 Signed(e) == IsSig(e) /\ e.v
@@ -63,11 +76,11 @@ N(i) == ToString(i)
 (* fully qualified names of the terminal fields that are NOT signatures: they must survive *)
 KeepFields == {"t" \o N(i) : i \in {j \in 1..Len(fields) : fields[j].sh = "tx"}}
               \cup {"g" \o N(i) \o ".t" : i \in {j \in 1..Len(fields) : fields[j].sh = "grp" /\ fields[j].tx}}
-(* annotations that must survive, per page: widgets of text fields and the link *)
+(* annotations that must survive, per page: widgets of text fields and all other annotations *)
 KeepAnnots == [pg \in 1..np |->
                  {"t" \o N(i) : i \in {j \in 1..Len(fields) : fields[j].sh = "tx" /\ fields[j].p = pg}}
                  \cup {"g" \o N(i) \o ".t" : i \in {j \in 1..Len(fields) : fields[j].sh = "grp" /\ fields[j].tx /\ fields[j].p = pg}}
-                 \cup (IF link /\ pg = 1 THEN {"link"} ELSE {})]
+                 \cup {a.name : a \in {b \in Others(oth, np) : b.pg = pg}}]
 (* what is there before (for the record): signature field names *)
 SigFields == {(CASE fields[i].sh \in {"sigM", "sigK", "sigK2"} -> "s" \o N(i)
                  [] fields[i].sh = "grp3" -> "g" \o N(i) \o ".h.s"
@@ -76,7 +89,7 @@ SigFields == {(CASE fields[i].sh \in {"sigM", "sigK", "sigK2"} -> "s" \o N(i)
 Init == /\ np \in NPs
         /\ fields = <<>>
         /\ perms \in SUBSET {"DocMDP", "UR3"}
-        /\ link \in BOOLEAN
+        /\ oth \in OthCfgs
         /\ ind \in SUBSET IndDims
         /\ "perms" \in ind => perms # {}
         /\ sf \in SFs
@@ -85,7 +98,7 @@ Add == /\ Len(fields) < MaxFields
             /\ Len(fields) >= 1 => e.sh \in Later
             /\ IsSig(e) => sf = 3          \* documents with signature fields carry /SigFlags 3
             /\ fields' = Append(fields, e)
-       /\ UNCHANGED <<np, perms, link, ind, sf>>
+       /\ UNCHANGED <<np, perms, oth, ind, sf>>
 Next == Add
 Spec == Init /\ [][Next]_vars
 
@@ -95,7 +108,7 @@ NoSigNoPerms == ~HasSigs => perms = {} /\ \A i \in 1..Len(fields) : fields[i].sh
 (* a stale /SigFlags never turns an unsigned document into a signed one *)
 FlagsDoNotSign == (~HasSigField /\ perms = {}) => ~HasSigs
 
-Case == [np |-> np, fields |-> fields, perms |-> perms, link |-> link, ind |-> ind, sf |-> sf,
+Case == [np |-> np, fields |-> fields, perms |-> perms, oth |-> oth, others |-> Others(oth, np), ind |-> ind, sf |-> sf,
          outcome |-> IF HasSigs THEN "ok" ELSE "nosig",
          sigfields |-> SigFields, keepfields |-> KeepFields, keepannots |-> KeepAnnots]
 Emit == WellFormed => PrintT(<<"CASE", ToJson(Case)>>)
